@@ -133,29 +133,42 @@ func propC09(c *Check) {
 	c.RequireFact(F, "R3", "forkchoice-error-returned", lit("("+fcu+"#1 == nil)"), nil, "")
 	c.RequireFact(F, "R3", "forkchoice-INVALID-fails", lit(NE(fcu+"#0.PayloadStatus.Status", "engine.INVALID"))+"|"+lit(EQ(fcu+"#0.PayloadStatus.Status", "engine.VALID")), nil, "")
 	{
+		// the fork-choice state as the engine receives it: the value each field holds AT the ForkchoiceUpdatedV3 call,
+		// on every path that reaches the call (a field assigned on some paths only shows as a mixture)
 		r := p.R(F)
 		want := map[string]string{
-			"new(engine.ForkchoiceStateV1)#0.HeadBlockHash":      "common.BytesToHash(Block.Get()#0.BlockHash)",
-			"new(engine.ForkchoiceStateV1)#0.SafeBlockHash":      "common.BytesToHash(Block.Get()#0.ParentHash)",
-			"new(engine.ForkchoiceStateV1)#0.FinalizedBlockHash": "common.BytesToHash(Block.Get()#0.ParentHash)",
+			"HeadBlockHash":      "common.BytesToHash(Block.Get()#0.BlockHash)",
+			"SafeBlockHash":      "common.BytesToHash(Block.Get()#0.ParentHash)",
+			"FinalizedBlockHash": "common.BytesToHash(Block.Get()#0.ParentHash)",
 		}
-		for _, b := range F.Blocks {
-			for _, in := range b.Instrs {
-				if st, ok := in.(*ssa.Store); ok {
-					a := r.E(st.Addr)
-					if w, ok := want[a]; ok {
-						delete(want, a)
-						if v := r.E(st.Val); v == w {
-							c.Held("R3", "forkchoice "+strings.TrimPrefix(a, "new(engine.ForkchoiceStateV1)#0.")+" @ "+FuncKey(F), p.InstrPos(in), v)
-						} else {
-							c.Violated("R3", "forkchoice "+strings.TrimPrefix(a, "new(engine.ForkchoiceStateV1)#0.")+" @ "+FuncKey(F), p.InstrPos(in), "is "+v+", expected "+w)
-						}
+		var fcuCall ssa.CallInstruction
+		for _, ci := range callsIn(F) {
+			if strings.HasPrefix(p.CallStr(ci), "EngineClient.ForkchoiceUpdatedV3(") {
+				fcuCall = ci
+			}
+		}
+		var state *ssa.Alloc
+		if fcuCall != nil {
+			for _, a := range fcuCall.Common().Args {
+				if pt, ok := a.Type().Underlying().(*types.Pointer); ok && strings.HasSuffix(pt.Elem().String(), "engine.ForkchoiceStateV1") {
+					if al, path := rootAlloc(a); al != nil && path == "" {
+						state = al
 					}
 				}
 			}
 		}
-		for a := range want {
-			c.Violated("R3", "forkchoice "+strings.TrimPrefix(a, "new(engine.ForkchoiceStateV1)#0.")+" @ "+FuncKey(F), p.Pos(F.Pos()), "not set reason=not-established")
+		for _, f := range []string{"HeadBlockHash", "SafeBlockHash", "FinalizedBlockHash"} {
+			key := "forkchoice " + f + " @ " + FuncKey(F)
+			if state == nil {
+				c.Violated("R3", key, p.Pos(F.Pos()), "not set reason=not-established")
+				continue
+			}
+			v := r.fieldAt(state, "."+f, fcuCall, "unset", 0)
+			if v == want[f] {
+				c.Held("R3", key, p.InstrPos(fcuCall), v)
+			} else {
+				c.Violated("R3", key, p.InstrPos(fcuCall), "is "+v+" at the call, expected "+want[f])
+			}
 		}
 	}
 	// R4
